@@ -197,6 +197,27 @@ def check_obligations(pl, rundir):
     return res, out
 
 
+def coqchk(pl, timeout=1800):
+    """Independent re-check of the compiled property files (thorough tier)."""
+    mods = []
+    for mod, _ in pl.THEOREMS:
+        if mod not in mods:
+            mods.append(mod)
+    rc, out, dt = sh(["coqchk", "-silent", "-o", "-R", COQ, "EG"] + mods, cwd=COQ, timeout=timeout)
+    m = re.search(r"\* Axioms:(.*?)\n\s*\n\* Constants", out, flags=re.S)
+    axioms = []
+    if m:
+        txt = m.group(1).strip()
+        if txt != "<none>":
+            axioms = [l.strip() for l in txt.splitlines() if l.strip()]
+    clean = all(("* %s: <none>" % k) in re.sub(r"\s+", " ", out) for k in (
+        "Constants/Inductives relying on type-in-type", "Constants/Inductives relying on unsafe (co)fixpoints",
+        "Inductives whose positivity is assumed"))
+    return dict(exit=rc, wall_s=round(dt, 1), axioms=axioms, clean=clean, modules=mods,
+                ok=(rc == 0 and clean and all(a.split()[0].split(".")[-1] in AXIOM_ALLOW or a.split()[0] in AXIOM_ALLOW for a in axioms)),
+                tail=out[-600:] if rc != 0 else "")
+
+
 def eval_cases(pl, rundir, cases, kf_open, tag="cases"):
     """Encode cases as Coq terms, evaluate the plugin's check functions by
     vm_compute (sharded, in parallel). Returns list of result dicts aligned with cases."""
@@ -390,6 +411,16 @@ def main(argv):
         for o in obls:
             o["ok"] = False
         notes.append("gate: forbidden constructs: " + "; ".join(bad[:10]))
+    chk = None
+    if tier == "thorough" and build_ok and not a.replay and not os.environ.get("VERIF_NO_COQCHK"):
+        chk = coqchk(pl)
+        log("coqchk: exit %d, axioms %s, %.0fs" % (chk["exit"], chk["axioms"] or "none", chk["wall_s"]))
+        if not chk["ok"]:
+            obls.append(dict(theorem="coqchk " + " ".join(chk["modules"]), statement="independent re-check of the compiled .vo files",
+                             axioms=chk["axioms"], ok=False, error=chk["tail"]))
+        else:
+            obls.append(dict(theorem="coqchk " + " ".join(chk["modules"]), statement="independent re-check of the compiled .vo files (coqchk -silent -o): no type-in-type, no unsafe fixpoints, no assumed positivity",
+                             axioms=chk["axioms"], ok=True))
     broken_obl = [o for o in obls if not o["ok"]]
     log("obligations: %d/%d discharged (build %.1fs)" % (len(obls) - len(broken_obl), len(obls), dt))
 
@@ -579,7 +610,7 @@ def main(argv):
             rule=getattr(pl, "RULE", ""), class_histogram={str(k): v for k, v in sorted(classes.items())},
             nontrivial_classes=len(nontrivial_classes),
             input_distribution=dist, harnesses=hstats, samples=samples,
-            failing_input_search_cases=searched, stale_known_findings=stale, notes=notes),
+            coqchk=chk, failing_input_search_cases=searched, stale_known_findings=stale, notes=notes),
         assumptions=list(getattr(pl, "ASSUMPTIONS", [])),
         wall_s=round(wall, 1), violations=nviol)
     if hasattr(pl, "extra_evidence"):
